@@ -48,7 +48,8 @@ impl Command for TextWindow {
             }
 
             9 => {
-                self.size = ch.to_digit(36).unwrap() as i32;
+                self.size = 0;
+                parse_base_36(&mut self.size, ch)?;
                 Ok(false)
             }
 
